@@ -1,6 +1,368 @@
-"""Concurrent (virtual asyncio loop) scenarios shared by C01/C04/C05/C06/C07 — placeholder until W-A is built."""
-from .. import engine
+"""Concurrent scenarios on the virtual asyncio loop (W-A), shared by
+C01 / C04 / C05 / C06 / C07 / C14: 2-4 callers against one real AsyncConnectionPool,
+all orders of external events (state-merged), optional fault and cancellation budgets.
+One exploration evaluates every oracle; each property's check keeps its own."""
+from __future__ import annotations
+
+import json
+
+import httpcore
+
+from .. import engine, scen
+from ..aworld import AWorld
+from ..engine import Execution, Violation, make_spec
+from ..seqworld import exc_class, documented_exception
+from .seqfault import owned_transports, conn_stuck
+
+MOD = "mc.props.conc"
+
+
+def reachable_transports(conn):
+    out, seen = set(), set()
+
+    def walk(o, d=0):
+        if o is None or id(o) in seen or d > 6:
+            return
+        seen.add(id(o))
+        tr = getattr(o, "_tr", None)
+        if tr is not None and hasattr(tr, "inbound"):
+            out.add(tr.id)
+        for a in ("_connection", "_network_stream", "_stream"):
+            walk(getattr(o, a, None), d + 1)
+    walk(conn)
+    return out
+
+
+class ConcHarness:
+    """callers: list of "kind:origin[:opt...]" with kind in req | post | hold | early
+       options: pt=<pool timeout>, v (may be cancelled), late (arrives by an environment event)"""
+
+    def __init__(self, ct, callers, max_connections=1, max_keepalive=None, faults=0, cancels=0, styles=("scope",),
+                 early=True, framing="cl", h2cfg=None, horizon=600, keepalive_expiry=None, fault_set="one"):
+        self.ct = ct
+        self.callers = callers
+        self.max_connections = max_connections
+        self.max_keepalive = max_keepalive
+        self.faults = faults
+        self.cancels = cancels
+        self.styles = tuple(styles)
+        self.early = early
+        self.framing = framing
+        self.h2cfg = h2cfg or {}
+        self.horizon = horizon
+        self.keepalive_expiry = keepalive_expiry
+        self.fault_set = fault_set
+
+    def run(self, chooser) -> Execution:
+        ct = self.ct
+        topo = scen.Topology(scen.CONN_TYPES[ct], framing=self.framing, h2cfg=self.h2cfg)
+        kinds = None
+        if self.fault_set == "one":
+            kinds = {"connect": ["ConnectError"], "start_tls": ["ConnectError"], "read": ["ReadError"], "write": ["WriteError"]}
+        results: dict = {}
+        w = AWorld(chooser, topo.router, faults=self.faults, cancels=self.cancels, cancel_styles=self.styles, early=self.early,
+                   fault_kinds=kinds, horizon=self.horizon, extra_roots=[results])
+        pool = scen.make_pool(ct, w.backend, "async", max_connections=self.max_connections,
+                              max_keepalive_connections=self.max_keepalive, keepalive_expiry=self.keepalive_expiry)
+        w.roots.append(pool)
+        ever_pooled: list = []
+        c04 = {"max_list": 0, "max_open": 0}
+        N = self.max_connections
+
+        def mon(world):
+            conns = pool.connections
+            for c in conns:
+                if not any(c is e for e in ever_pooled):
+                    ever_pooled.append(c)
+            if len(conns) > N and "list" not in c04:
+                c04["list"] = f"pool holds {len(conns)} connections > max_connections={N}: {conns}"
+            evicted_tr = set()
+            for e in ever_pooled:
+                if not any(e is c for c in conns):
+                    evicted_tr |= reachable_transports(e)
+            open_tr = [t for t in world.net.open_transports() if t.id not in evicted_tr and not getattr(t, "backend_cleaned", False)]
+            inflight = sum(1 for op in world.net.pending if op.kind.startswith("connect"))
+            c04["max_list"] = max(c04["max_list"], len(conns))
+            c04["max_open"] = max(c04["max_open"], len(open_tr) + inflight)
+            if len(open_tr) + inflight > N and "open" not in c04:
+                c04["open"] = f"{len(open_tr)} open streams + {inflight} connects in flight > max_connections={N}: {open_tr}; pool={conns}"
+            # C07 serviceable waiter, judged only at quiescence
+            if not world.loop.live_ready():
+                for pr in pool._requests:
+                    if pr.is_queued():
+                        origin = pr.request.url.origin
+                        why = None
+                        if any(c.can_handle_request(origin) and c.is_available() for c in conns):
+                            why = "an available connection for its origin exists"
+                        elif len(conns) < N:
+                            why = "the pool is below its connection limit"
+                        elif any(c.is_idle() for c in conns):
+                            why = "an idle connection could be evicted"
+                        elif any(c.is_closed() for c in conns):
+                            why = "a closed connection occupies a slot"
+                        if why and "c07" not in c04:
+                            c04["c07"] = f"request for {origin} is queued at quiescence although {why}; pool={pool!r} {conns}"
+
+        w.monitors.append(mon)
+
+        specs = []
+        for i, cs in enumerate(self.callers):
+            parts = cs.split(":")
+            kind, origin, opts = parts[0], parts[1], parts[2:]
+            name = f"c{i}"
+            tok = f"k{i}"
+            ext = {}
+            for o in opts:
+                if o.startswith("pt="):
+                    ext = {"timeout": {"pool": float(o[3:])}}
+            url = scen.url_for(ct, host=f"{origin}.example", token=tok)
+            specs.append((name, kind, tok, opts))
+
+            def mk(kind=kind, url=url, tok=tok, name=name, ext=ext):
+                async def prog():
+                    if kind == "req":
+                        r = await pool.request("GET", url, extensions=dict(ext))
+                        return (r.status, r.content)
+                    if kind == "post":
+                        r = await pool.request("POST", url, content=b"data-" + tok.encode(), extensions=dict(ext))
+                        return (r.status, r.content)
+                    if kind == "hold":
+                        gate = w.make_release(name)
+                        async with pool.stream("GET", url, extensions=dict(ext)) as r:
+                            await gate.wait()
+                            body = await r.aread()
+                        return (r.status, body)
+                    if kind == "early":
+                        async with pool.stream("GET", url, extensions=dict(ext)) as r:
+                            pass
+                        return (r.status, None)
+                    raise ValueError(kind)
+                return prog
+            w.add_caller(name, mk(), cancellable=("v" in opts), arrive="event" if "late" in opts else "start")
+
+        ex = Execution()
+        try:
+            w.run()
+            post = {}
+            if w.deadlock is None:
+                post["after"] = scen.pool_summary(pool)
+                post["stuck"] = [s for s in (conn_stuck(c) for c in pool.connections) if s]
+                post["owned"] = owned_transports(pool)
+                post["open"] = {t.id for t in w.net.open_transports() if not getattr(t, "backend_cleaned", False)}
+
+                async def probe():
+                    held, res = [], []
+                    try:
+                        for i in range(N):
+                            cm = pool.stream("GET", scen.url_for(ct, host=f"p{i}.example", token=f"probe{i}"), extensions={"timeout": {"pool": 0}})
+                            try:
+                                r = await cm.__aenter__()
+                                held.append(cm)
+                                res.append(("ok", r.status))
+                            except Exception as e:
+                                res.append(("exc", e))
+                    finally:
+                        for cm in held:
+                            await cm.__aexit__(None, None, None)
+                    await pool.aclose()
+                    return res
+                saved_f, saved_c = w.env.faults, w.cancels
+                w.env.faults = 0
+                w.cancels = 0
+                post["probe"] = w.drain(probe)
+                post["open_end"] = [repr(t) for t in w.net.open_transports() if not getattr(t, "backend_cleaned", False)]
+            self.judge(ex, w, topo, pool, specs, post, c04)
+        finally:
+            w.close()
+        return ex
+
+    def judge(self, ex, w, topo, pool, specs, post, c04):
+        ex.notes["unmergeable"] = sorted(w.unmergeable)
+        inj = w.env.injected
+        canc = [c for c in w.callers if c["cancel_delivered"] is not None]
+        ex.nontrivial = bool(inj or canc or any(not e.startswith(("run", "arrive")) and "|" not in e for e in w.events_log[:0])) or len(set(w.events_log)) > 2
+        ex.trace = [{"events": w.events_log[-80:]}, {"ledger": [op.rec() for op in w.net.ledger][-60:]}]
+        base = {"harness": "conc", "ct": self.ct}
+        trig = "none"
+        if canc:
+            cd = canc[0]["cancel_delivered"]
+            trig = f"cancel-{cd['style']}"
+            base.update(trigger=trig, site=cd["where"], site_tail=cd["where"].split(" > ")[-1].split(":")[-1],
+                        in_httpcore_shield=cd["httpcore_shield"])
+        elif inj:
+            op = w.net.ledger[inj[0][0]]
+            trig = f"fault-{inj[0][1]}"
+            base.update(trigger=trig, fault_op=op.kind, site=inj[0][2])
+        # states of pooled connections that can neither serve, expire nor be evicted (symptom classification)
+        stuck_now = []
+        stuck_infos = post["stuck"] if "stuck" in post else [x for x in (conn_stuck(c) for c in pool.connections) if x]
+        for s_ in stuck_infos:
+            parts = [p.strip() for p in s_.split(",")]
+            stuck_now.append((parts[-2] if len(parts) >= 3 else s_, parts[-3] if len(parts) >= 3 else "-"))
+        base["stuck"] = sorted({x[0] for x in stuck_now})
+        base["stuck_proto"] = sorted({x[1] for x in stuck_now})
+        if canc:
+            vname = canc[0]["name"]
+            vorigin = next(cs.split(":")[1] for i, cs in enumerate(self.callers) if f"c{i}" == vname)
+            shared = scen.CONN_TYPES[self.ct]["http2"] and sum(1 for cs in self.callers if cs.split(":")[1] == vorigin) > 1
+            base["shared_connecting"] = bool(shared)
+            open_now = [t for t in w.net.transports if not t.closed and not getattr(t, "backend_cleaned", False)]
+            openers = {op.task for op in w.net.ledger if op.kind.startswith("connect") and op.tr in open_now}
+            base["orphan_opened_by_victim"] = vname in openers
+        base["pool_timeout_race"] = any(isinstance(c["result"], tuple) and c["result"][0] == "exc" and isinstance(c["result"][1], httpcore.PoolTimeout)
+                                        for c in w.callers)
+        desc = f"ct={self.ct} callers={self.callers} N={self.max_connections} trigger={trig} site={base.get('site')} events={w.events_log[-25:]}"
+
+        def viol(prop, kind, msg, **extra):
+            ex.violations.append(Violation(f"{prop}.{kind}", f"{msg} | {desc}", dict(base, kind=kind, **extra)))
+
+        results = {c["name"]: c["result"] for c in w.callers}
+        if w.deadlock is not None:
+            kind, info = w.deadlock
+            viol("C07", kind, f"callers blocked forever: {info}; pool={pool!r} {pool.connections}",
+                 blocked_at=[b[1] for b in info] if isinstance(info, list) else None)
+            ex.outcome = f"{kind}:{sorted((k, (v[0] if v else None)) for k, v in results.items())}"
+            return
+        # ---- per caller: C01 token equality, C15 documented exceptions
+        for (name, kind, tok, opts) in specs:
+            r = results[name]
+            c = next(c for c in w.callers if c["name"] == name)
+            if r is None:
+                if c["task"].cancelled():
+                    r = ("cancelled-native", None)
+                    results[name] = r
+                else:
+                    viol("C07", "no-result", f"caller {name} finished without result")
+                    continue
+            if r[0] == "ok":
+                status, body = r[1]
+                want = b"<" + tok.encode() + b">"
+                if status != 200 or (body is not None and body != want):
+                    viol("C01", "cross-talk", f"caller {name} (token {tok}) received status={status} body={body!r}, expected {want!r}")
+            elif r[0] == "exc":
+                e = r[1]
+                if not documented_exception(e):
+                    viol("C15", "undocumented-exception", f"caller {name}: {exc_class(e)}: {e}", leaked=exc_class(e))
+                elif not inj and not canc and not isinstance(e, httpcore.PoolTimeout):
+                    viol("C08", "collateral-failure", f"caller {name} failed with {exc_class(e)}: {e} although nothing was injected")
+                elif isinstance(e, httpcore.PoolTimeout) and not any(o.startswith("pt=") for o in opts):
+                    viol("C16", "pool-timeout-without-timeout", f"caller {name} got PoolTimeout without a pool timeout")
+        for c in topo.all_h1_conns():
+            if c.reuse_violations:
+                viol("C01", "reuse", f"{c.reuse_violations[:2]}")
+            if c.parser.errors:
+                viol("C03", "h1-peer-complaint", f"{c.parser.errors[:2]}")
+        for c in topo.all_h2_conns():
+            if c.violations:
+                viol("C03", "h2-peer-complaint", f"{c.violations[:2]}")
+        # ---- C04
+        if "list" in c04:
+            viol("C04", "pool-list-overshoot", c04["list"])
+        if "open" in c04:
+            viol("C04", "open-stream-overshoot", c04["open"])
+        if "c07" in c04:
+            viol("C07", "serviceable-waiter", c04["c07"])
+        # ---- C05
+        after = post["after"]
+        if after["requests"] != 0 or "Requests: 0 active, 0 queued" not in after["repr"]:
+            viol("C05", "request-still-counted", f"pool after all callers returned: {after['repr']}")
+        if post["stuck"]:
+            st = post["stuck"][0]
+            viol("C05", "connection-stuck", f"pooled connection neither idle, closed nor expired after all callers returned: {post['stuck']}",
+                 state=[p.strip() for p in st.split(",")][-2] if "," in st else st)
+        pr = post["probe"]
+        if pr[0] != "ok":
+            viol("C05", "probe-" + pr[0], f"capacity probe did not terminate normally: {pr}; pool after callers: {after['conns']}")
+        else:
+            bad = [p for p in pr[1] if p[0] != "ok"]
+            if bad:
+                viol("C05", "capacity-lost", f"probe of {self.max_connections} fresh origins failed: {[exc_class(p[1]) for p in bad]}; pool after callers: {after['conns']}")
+        # ---- C06
+        orphans = sorted(post["open"] - post["owned"])
+        if orphans:
+            viol("C06", "orphan-stream", f"open streams not owned by any pooled connection at quiescence: {[repr(w.net.transports[i]) for i in orphans]}")
+        if post.get("open_end"):
+            viol("C06", "open-after-pool-close", f"streams still open after pool.aclose(): {post['open_end']}")
+        # ---- C14
+        for tok, sightings in topo.seen_tokens().items():
+            if tok and len(sightings) > 1:
+                viol("C14", "request-sent-twice", f"token {tok!r} seen {len(sightings)} times: {sightings}")
+        if w.loop.unhandled:
+            viol("C15", "loop-exception", f"event loop exception handler called: {w.loop.unhandled[:2]}")
+        ex.outcome = json.dumps({"r": sorted((k, v[0] if v[0] != "exc" else "exc:" + exc_class(v[1])) for k, v in results.items()),
+                                 "pool": after["repr"].split("[")[1], "trig": trig, "c04": (c04["max_list"], c04["max_open"])})
+
+
+# ---------------------------------------------------------------------------------- scenario matrices
+
+
+def S(ct, callers, **kw):
+    return make_spec(MOD, "ConcHarness", ct=ct, callers=callers, **kw)
+
+
+def scenarios(pid, tier):
+    """Scenario matrix per property (overlapping on purpose: every oracle runs on every scenario)."""
+    out = []
+    h1 = ["h11", "h11tls", "fwd", "tunnel", "socks"]
+    h2 = ["h2pk", "h2alpn"]
+    quick = tier == "quick"
+    if pid in ("C01", "C04", "C07"):
+        # all event orders, no faults: 2-3 callers, same/different origins
+        for ct in (["h11", "h2alpn", "h2exp11", "fwd", "tunnel"] if quick else list(scen.CONN_TYPES)):
+            out.append(S(ct, ["req:a", "req:a"], max_connections=1))
+            out.append(S(ct, ["req:a", "req:b"], max_connections=1))
+            out.append(S(ct, ["hold:a", "req:a", "req:b"], max_connections=2))
+            out.append(S(ct, ["early:a", "req:a", "req:b:late"], max_connections=1))
+            if not quick:
+                out.append(S(ct, ["req:a", "req:b", "req:c"], max_connections=2))
+                out.append(S(ct, ["hold:a", "req:b", "req:a:late", "req:b:late"], max_connections=2))
+        for fr in (["chunked", "close", "connclose", "http10", "interim"] if pid == "C01" else ["connclose"]):
+            out.append(S("h11", ["req:a", "req:a", "req:b"], max_connections=1, framing=fr))
+            out.append(S("h11", ["early:a", "req:a"], max_connections=1, framing=fr))
+        for mk in ([0, 1] if pid != "C01" else [1]):
+            out.append(S("h11", ["req:a", "req:b", "req:a:late"], max_connections=2, max_keepalive=mk))
+        # with one fault / one cancellation (deviation bounded)
+        for ct in (["h11", "h2alpn"] if quick else ["h11", "h11tls", "h2alpn", "h2exp11", "fwd", "tunnel", "socks"]):
+            out.append(S(ct, ["req:a:v", "req:a"], max_connections=1, cancels=1, styles=["scope", "native"]))
+            out.append(S(ct, ["req:a", "req:b"], max_connections=1, faults=1))
+        if pid == "C07":
+            out.append(S("h11", ["hold:a", "req:b:pt=5", "req:b"], max_connections=1))
+            out.append(S("h2exp11", ["req:a", "req:a", "req:a"], max_connections=2))
+    if pid in ("C05", "C06"):
+        cts = list(scen.CONN_TYPES)
+        for ct in cts:
+            out.append(S(ct, ["req:a:v"], max_connections=1, cancels=1, styles=["scope", "native"]))
+            out.append(S(ct, ["req:a:v", "req:b"], max_connections=1, cancels=1, styles=["scope", "native"]))
+            if scen.CONN_TYPES[ct]["http2"]:
+                out.append(S(ct, ["req:a:v", "req:a"], max_connections=1, cancels=1, styles=["scope", "native"]))
+            out.append(S(ct, ["post:a", "req:b"], max_connections=1, faults=1, fault_set="all" if not quick else "one"))
+            if not quick:
+                out.append(S(ct, ["early:a:v", "req:a"], max_connections=1, cancels=1, styles=["scope", "native"]))
+                out.append(S(ct, ["hold:a:v", "req:b"], max_connections=1, cancels=1, styles=["scope", "native"]))
+    if pid == "C14":
+        for ct in ["h11", "h2alpn", "h2exp11", "h2pk"]:
+            out.append(S(ct, ["post:a", "req:a"], max_connections=2, faults=1, fault_set="all"))
+            out.append(S(ct, ["req:a", "req:a", "req:a"], max_connections=1))
+    return out
+
+
+BOUNDS = {"quick": 2, "thorough": 3}
 
 
 def run_for(pid, tier, seed, workers, only):
-    return engine.Stats(bound=None), {"scenarios": 0, "note": "asyncio-world scenarios not built yet"}
+    from . import common
+    specs = common.filt(scenarios(pid, tier), only)
+    if not specs:
+        return engine.Stats(bound=None), {"scenarios": 0}
+    per = []
+
+    def on_result(spec, st):
+        per.append({"scenario": spec[2][:200], "states": st.states, "executions": st.evaluations, "exhaustive": st.exhaustive,
+                    "caps": st.caps, "outcomes": len(st.outcomes)})
+    st = engine.explore_many(specs, workers=workers, bound=None, seed=seed, max_violations=60,
+                             max_execs=60000 if tier == "quick" else 600000, max_seconds=120 if tier == "quick" else 900, on_result=on_result)
+    info = {"scenarios": len(specs), "executions": st.evaluations, "states": st.states, "transitions": st.transitions,
+            "exhaustive_scenarios": sum(1 for p in per if p["exhaustive"]), "capped_scenarios": [p for p in per if not p["exhaustive"]][:10],
+            "per_scenario_states": sorted(p["states"] for p in per),
+            "world": "virtual asyncio loop, real anyio primitives; ready queue FIFO never reordered; choices = arrivals, I/O completions (incl. early), faults, timers, cancellations (scope and native), releases"}
+    return st, info
